@@ -128,12 +128,13 @@ def run(rep, F, ctx):
         B = cg.body(fn)
         # the value the default body returns, described structurally (temporaries and helpers that did not exist in the confirmed tree are seen through)
         import siteguard as _sgd
-        res = _sgd.collect(F, cg, [fn]).get(fn + '|result', [])
-        vals = sorted({r[0] for r in res})
-        want = {'%s(BitAnd(mode(arg1),%d),0)' % (cmp_, const), '%s(BitAnd(%d,mode(arg1)),0)' % (cmp_, const), '%s(0,BitAnd(mode(arg1),%d))' % (cmp_, const)}
-        ok = len(vals) == 1 and vals[0] in want and all(len(r) == 1 for r in res)
+        res = _sgd.collect(F, cg, [fn]).get(fn + '|return true', [])          # truth conditions of the predicate
+        vals = sorted(tuple(r) for r in res)
+        tv = 'False' if cmp_ == 'Ne' else 'True'
+        want = {('Eq(0,BitAnd(mode(arg1),%d))=%s' % (const, tv),), ('Eq(0,BitAnd(%d,mode(arg1)))=%s' % (const, tv),)}
+        ok = len(vals) == 1 and vals[0] in want
         rep.add('ENTRY-DEFAULTS', 'entrydefault:%s' % meth, 'Entry::%s == (mode() & %s %s 0)' % (meth, oct(const), '!=' if cmp_ == 'Ne' else '=='), ok,
-                '%s:%d' % (B.file, B.line), '' if ok else 'Entry::%s is computed differently: returns %s' % (meth, vals))
+                '%s:%d' % (B.file, B.line), '' if ok else 'Entry::%s is computed differently: it is true exactly under %s' % (meth, vals))
         for ety in ('sys::fs::memfs::entry::MemfsEntry', 'sys::fs::stdfs::entry::StdfsEntry'):
             over = '<%s as %s>::%s' % (ety, ENTRY_TR, meth)
             ok = over not in F.bodies
